@@ -320,3 +320,89 @@ W["ripple_carry"] = dict(
              "sum(j, 0, len(xs), wbit(result[1][j], j)) + wbit(result[0], len(xs)) == "
              "sum(j, 0, len(xs), wbit(xs[len(xs) - 1 - j], j)) + sum(j, 0, len(xs), wbit(ys[len(ys) - 1 - j], j))"],
 )
+
+# ------------------------------------------------------------------ combinatorics.py: n_choose_m_given_m_factorial (C13)
+# The loop computes the falling factorial n (n-1) ... (n-m+1); the result is its floor quotient by f_m.  With f_m == m! that
+# quotient is the binomial coefficient (textbook identity  C(n,m) * m! == n!/(n-m)!  — not re-proved here, listed as an
+# assumption; the native twin compares with math.comb on the bounded domain).
+W["n_choose_m_given_m_factorial"] = dict(
+    id="n_choose_m_given_m_factorial", target="sweetpea._internal.combinatorics:n_choose_m_given_m_factorial", prop=["C13"],
+    params={"n": "int", "m": "int", "f_m": "int"},
+    requires=["m >= 0", "n >= 0", "f_m >= 1"],
+    ghost={"P": ("int", "1"), "Wf": ("list[int]", "[]")},        # Wf[t] = n0 (n0-1) ... (n0-t+1)
+    loops={0: dict(
+        invariant=["len(Wf) == old(n) - n", "h == old(n) - m", "n >= h", "old(n) > m", "p == P", "P >= 1",
+                   "implies(len(Wf) > 0, Wf[0] == 1)", "forall(t, 0, len(Wf) - 1, Wf[t + 1] == Wf[t] * (old(n) - t))",
+                   "implies(len(Wf) > 0, P == Wf[len(Wf) - 1] * (old(n) - (len(Wf) - 1)))", "implies(len(Wf) == 0, P == 1)"],
+        decreases="n - h",
+        ghost_update=["Wf.append(P)"],
+        ghost_end=["P = P * (n + 1)"])},
+    ensures=["implies(old(n) < m, result == 0)", "implies(old(n) == m, result == 1)",
+             # n > m: P is the falling factorial with m factors and result == P div f_m
+             "implies(old(n) > m, len(Wf) == m and P >= 1)",
+             "implies(old(n) > m and m > 0, Wf[0] == 1 and P == Wf[m - 1] * (old(n) - (m - 1)))",
+             "implies(old(n) > m, forall(t, 0, m - 1, Wf[t + 1] == Wf[t] * (old(n) - t)))",
+             "implies(old(n) > m and m == 0, P == 1)",
+             "implies(old(n) > m, result * f_m <= P and P < (result + 1) * f_m)", "result >= 0"],
+    native=dict(call=lambda f, n, m, f_m: f(n, m, f_m),
+                domain=lambda: ({"n": n, "m": m, "f_m": fm} for n in range(0, 9) for m in range(0, 9) for fm in (1, 2, _math.factorial(m))),
+                ghost_post=lambda res, n, m, f_m: ({"Wf": [_math.factorial(n) // _math.factorial(n - t) for t in range(m)],
+                                                   "P": _math.factorial(n) // _math.factorial(n - m), "n": n - m} if n > m else {"Wf": [], "P": 1})),
+    assumptions=["falling factorial n!/(n-m)! divided by m! is the binomial coefficient C(n,m) (textbook identity; the contract proves that the "
+                 "loop computes the falling factorial and the floor quotient by f_m; compared with math.comb natively on n, m <= 8)"],
+)
+
+# ------------------------------------------------------------------ core/cnf.py: ripple_saturate for every width (C12, used by C10)
+_SAT_ADDER = dict(
+    params={"a": "int", "b": "int", "cin": "opt[int]"}, ghost_args={"F": "F"},
+    requires=["F >= 0", "a != 0", "abs(a) <= F", "b != 0", "abs(b) <= F", "is_none(cin) or (cin != 0 and abs(cin) <= F)"],
+    returns="int",
+    ensures=["result == F + 1",
+             "iff(L(result), L(a) or L(b) or (not is_none(cin) and L(cin)))"],
+    ghost_after=["F = F + 1"])
+_X_LOW = "sum(j, 0, {n}, wbit(xs[len(xs) - 1 - j], j))"
+_Y_LOW = "sum(j, 0, {n}, wbit(ys[len(ys) - 1 - j], j))"
+_S_LOW = "sum(j, 0, {n}, wbit(s_accum[j], j))"
+W["ripple_saturate"] = dict(
+    id="ripple_saturate", target="sweetpea._internal.core.cnf:CNF.ripple_saturate", prop=["C12", "C10"],
+    params={"xs": "list[int]", "ys": "list[int]", "saturate_at": "int"},
+    ghost={"F": ("int", None)},
+    spec_funcs={"val": (["int"], "bool")},
+    macros=_CNF_MACROS,
+    uses={"self.full_adder": _FULL_ADDER, "self.saturate_adder": _SAT_ADDER},
+    # call sites (_pop_count_layer): both operands have the same width, at most saturate_at bits
+    requires=["F >= 0", "len(xs) == len(ys)", "len(xs) >= 1", "len(xs) <= saturate_at",
+              "forall(j, 0, len(xs), xs[j] != 0 and abs(xs[j]) <= F and ys[j] != 0 and abs(ys[j]) <= F)"],
+    loops={0: dict(
+        index="it", types={"cin": "opt[int]"},
+        invariant=["len(s_accum) == it", "it <= saturate_at",
+                   # ids: full adders allocate (carry, sum) = (F+1, F+2), the saturating top position one id
+                   "implies(it < saturate_at, F == old(F) + 2 * it)", "implies(it == saturate_at, F == old(F) + 2 * it - 1)",
+                   "forall(j, 0, it, implies(j + 1 < saturate_at, s_accum[j] == old(F) + 2 * j + 2))",
+                   "implies(it == saturate_at, s_accum[it - 1] == old(F) + 2 * it - 1)",
+                   "iff(is_none(cin), it == 0 or saturate_at == 1)",
+                   "implies(it > 0 and it < saturate_at, cin == old(F) + 2 * it - 1)",
+                   "implies(it == saturate_at and saturate_at > 1, cin == old(F) + 2 * (it - 1) - 1)",
+                   # value: while no saturation happened this is the ripple-carry invariant
+                   "implies(it < saturate_at, " + _S_LOW.format(n="it") + " + ite(it > 0, wbit(cin, it), 0) == " + _X_LOW.format(n="it") + " + " + _Y_LOW.format(n="it") + ")",
+                   _S_LOW.format(n="it") + " >= 0", "implies(it < saturate_at, " + _S_LOW.format(n="it") + " < pow2(it))",
+                   # after the saturating position (it == saturate_at == len(xs)): low bits exact with carry `cin`, top bit is the OR
+                   "implies(it == saturate_at, " + _S_LOW.format(n="it - 1") + " + ite(it > 1, wbit(cin, it - 1), 0) == " + _X_LOW.format(n="it - 1") + " + " + _Y_LOW.format(n="it - 1") + ")",
+                   "implies(it == saturate_at, " + _S_LOW.format(n="it - 1") + " < pow2(it - 1) and " + _S_LOW.format(n="it - 1") + " >= 0)",
+                   "implies(it == saturate_at, iff(L(s_accum[it - 1]), L(xs[len(xs) - it]) or L(ys[len(ys) - it]) or (it > 1 and L(cin))))"],
+        hints=["implies(it < saturate_at, wbit(c, it) + wbit(s, it - 1) == wbit(x, it - 1) + wbit(y, it - 1) + ite(it > 1, wbit(pre(cin), it - 1), 0))",
+               "sum(j, 0, it - 1, wbit(s_accum[j], j)) == pre(sum(j, 0, it, wbit(s_accum[j], j)))"])},
+    ensures=[
+        # shape and ids
+        "implies(len(xs) < saturate_at, len(result) == len(xs) + 1 and F == old(F) + 2 * len(xs))",
+        "implies(len(xs) == saturate_at, len(result) == len(xs) and F == old(F) + 2 * len(xs) - 1)",
+        "forall(j, 0, len(result), result[j] > old(F) and result[j] <= F)",
+        # len < saturate_at: the exact sum, most significant bit first (carry-out on top)
+        "implies(len(xs) < saturate_at, sum(j, 0, len(xs) + 1, wbit(result[len(xs) - j], j)) == "
+        + _X_LOW.format(n="len(xs)") + " + " + _Y_LOW.format(n="len(xs)") + ")",
+        # len == saturate_at (documented saturation of the top bit): exact while the sum fits below the top bit, top bit set otherwise
+        "implies(len(xs) == saturate_at and " + _X_LOW.format(n="len(xs)") + " + " + _Y_LOW.format(n="len(xs)") + " < pow2(len(xs) - 1), "
+        "sum(j, 0, len(xs), wbit(result[len(xs) - 1 - j], j)) == " + _X_LOW.format(n="len(xs)") + " + " + _Y_LOW.format(n="len(xs)") + ")",
+        "implies(len(xs) == saturate_at and " + _X_LOW.format(n="len(xs)") + " + " + _Y_LOW.format(n="len(xs)") + " >= pow2(len(xs) - 1), L(result[0]))",
+    ],
+)
